@@ -111,5 +111,11 @@ class CoefficientCollector(Mapper):
         # targets when no target names were given.
         if self.target_names is None:
             return {expr: 1}
-        else:
-            return {1: expr}
+
+        from pymbolic.mapper.dependency import DependencyMapper
+        for dep in DependencyMapper(composite_leaves=False)(expr):
+            if dep.name in self.target_names:
+                # e.g. f(x) or a[x] with target x
+                raise RuntimeError("nonlinear expression")
+
+        return {1: expr}
